@@ -66,12 +66,17 @@ func (p *Parser) ParseFunctionParameters() []*ast.Identifier {
 		p.NextToken()
 		return identifiers
 	}
-	p.NextToken()
+	// a parameter is an identifier, nothing else
+	if !p.ExpectToken(token.IDENT) {
+		return nil
+	}
 	ident := &ast.Identifier{Token: p.CurrentToken, Value: p.CurrentToken.Literal}
 	identifiers = append(identifiers, ident)
 	for p.PeekToken.Type == token.COMMA {
 		p.NextToken()
-		p.NextToken()
+		if !p.ExpectToken(token.IDENT) {
+			return nil
+		}
 		ident := &ast.Identifier{Token: p.CurrentToken, Value: p.CurrentToken.Literal}
 		identifiers = append(identifiers, ident)
 	}
